@@ -140,3 +140,15 @@ func (e *Env) CrashInClose(point string) (fired bool, err error) {
 	}
 	return fired, e.Open()
 }
+
+// Race runs two Shard.WritePoints calls concurrently (released together) and
+// returns their results.
+func (e *Env) Race(a, b []string) (string, string) {
+	e.BeginOp()
+	start := make(chan struct{})
+	ra, rb := make(chan string, 1), make(chan string, 1)
+	go func() { <-start; ra <- e.writeNoBegin(a) }()
+	go func() { <-start; rb <- e.writeNoBegin(b) }()
+	close(start)
+	return <-ra, <-rb
+}
